@@ -1,18 +1,33 @@
 import SlugModel.Lemmas.PackInv
 /-!
-# C19 (Pack part) — packing terminates; a dereferenced directory that links to itself is not bounded
+# C19 (Pack part) — packing terminates, also on trees with symlink cycles
 
 Property theorems only; general helper lemmas live in `Lemmas/PackInv`, the evaluation lemmas of
 the closed examples are private to this file.
 `walkNode`/`walkChildren`/`visit` (Pack.lean) take fuel where the code recurses without a bound of
 its own (the nested `filepath.Walk` into a dereferenced directory) and report `diverged` when it
-runs out; `packFuel` is what `pack` gives them.  A result `diverged` *for every fuel* is the
-model's rendering of "the code does not return" (finding F26, open: in the real code the recursion
-is bounded only by the path-length limit of the kernel / the stack).
-`resolveExternalLink` is different since the fix of finding F25: its counter is the code's own
-bound on the symlink chain (`maxLinkHops`), running out of it is the I/O error "too many levels of
-symbolic links", and it never reports `diverged`.  A dereferenced link whose target is a special
-file is skipped (finding F27, fixed).
+runs out; `packFuel` is what `pack` gives them.
+
+* `C19_pack_terminates`: for every filesystem whose directory entries are plain names there is a
+  bound `pkTermBound fs` — a function of the number of bindings and of the length of the longest
+  bound path — such that with at least that much fuel no walk from an absolute path reports
+  `diverged`, whatever the options (dereferencing on or off, any `visiting` list), rules, state and
+  node; from the bound on the answer does not depend on the fuel (`C19_pack_fuel_irrelevant`).
+  This is the model's rendering of "`Pack` returns", for every finite tree, with or without
+  symlink cycles.  The measure: every nested walk into a dereferenced directory pushes a physical
+  location that was not on the `visiting` list (finding F26, repaired: a location that is on the
+  list is the "symlink cycle" error), so the number of locations off the list decreases; inside one
+  walk every child lies one level deeper, physically, than its directory, and no binding lies
+  deeper than the longest bound path.
+* The former counterexamples for F26 (a dereferenced directory holding a link to itself: `diverged`
+  for every fuel) are replaced by the facts that hold now: the cycle is an I/O error
+  (`C19_pack_deref_cycle_is_error`, `C19_nested_walk_cycle_is_error`), also when it runs through an
+  ancestor (`C19_pack_deref_ancestor_cycle_is_error`); two links to one outside directory side by
+  side are both archived (`C19_pack_deref_twice_is_ok`: the list is a stack, not a visited set).
+* `resolveExternalLink` is different since the fix of finding F25: its counter is the code's own
+  bound on the symlink chain (`maxLinkHops`), running out of it is the I/O error "too many levels
+  of symbolic links", and it never reports `diverged`.  A dereferenced link whose target is a
+  special file is skipped (finding F27, fixed).
 -/
 namespace Slug
 
@@ -56,176 +71,197 @@ theorem C19_link_chain_too_long_is_error (fs : FS) (n : Nat) (path : Str)
     (h : pkChainEnds fs n path = false) : resolveExternalLink fs n path = .error .ioerr :=
   pk_resolveExternalLink_too_long fs n path h
 
-/-! ## the closed example: `/t/src/l -> /t/ext`, `/t/ext/self -> /t/ext`, dereferencing on -/
+/-! ## termination of the walk -/
 
+/-- **C19_pack_terminates.**  Let the directory entries of `fs` be plain names (`PackNamesOK`: no
+`/`, not empty, not `.` or `..` — true of every real filesystem, not of every value of the model
+type `FS`; `C19_cex_terminates_needs_names` shows that the hypothesis cannot be dropped).  With
+fuel `≥ pkTermBound fs = (n + 4) * ((n + 1) * (m + 2) + m + 2)` — `n` the number of bindings of
+`fs`, `m` the length of its longest bound path — the walk from an absolute path does not run out
+of fuel: for every working directory, all options (dereferencing or not, any `visiting` list), all
+rules, `root`/`src`/`dst`, every node and every state, `walkNode` returns `cont`, `skipDir`, or
+stops with a result other than `diverged`.  In particular a tree with symlink cycles, packed with
+dereferencing, is packed or refused in bounded time. -/
+theorem C19_pack_terminates (fs : FS) (hfs : PackNamesOK fs) (fuel : Nat) (hfuel : pkTermBound fs ≤ fuel)
+    (cwd : Str) (o : PackOpts) (rules : Option (List Rule)) (root src dst path : Str) (node : Node)
+    (st : PState) (habs : isAbs path = true) :
+    (walkNode fs cwd o rules root src dst fuel path node st).2 ≠ .stop .diverged :=
+  pk_walkNode_terminates fs hfs cwd o rules root src dst fuel hfuel path node st habs
+
+/-- the bound is a function of the filesystem only -/
+theorem C19_pack_terminates_exists (fs : FS) (hfs : PackNamesOK fs) :
+    ∃ N : Nat, ∀ fuel, N ≤ fuel → ∀ (cwd : Str) (o : PackOpts) (rules : Option (List Rule))
+      (root src dst path : Str) (node : Node) (st : PState), isAbs path = true →
+      (walkNode fs cwd o rules root src dst fuel path node st).2 ≠ .stop .diverged :=
+  ⟨pkTermBound fs, fun fuel h cwd o rules root src dst path node st habs =>
+    C19_pack_terminates fs hfs fuel h cwd o rules root src dst path node st habs⟩
+
+/-- the same for the other two functions of the walk: the loop over the names of a directory
+(one more unit of fuel per name) and the callback -/
+theorem C19_pack_terminates_loop_callback (fs : FS) (hfs : PackNamesOK fs) (fuel : Nat)
+    (cwd : Str) (o : PackOpts) (rules : Option (List Rule)) (root src dst path : Str) (node : Node)
+    (names : List Str) (st : PState) (habs : isAbs path = true) :
+    (pkTermBound fs + names.length + 1 ≤ fuel →
+      (walkChildren fs cwd o rules root src dst fuel path names st).2 ≠ .stop .diverged) ∧
+    (pkTermBound fs + 1 ≤ fuel →
+      (visit fs cwd o rules root src dst fuel path node st).2 ≠ .stop .diverged) :=
+  ⟨fun h => pk_walkChildren_terminates fs hfs cwd o rules root src dst fuel path names h st habs,
+   fun h => pk_visit_terminates fs hfs cwd o rules root src dst fuel h path node st habs⟩
+
+/-- **C19_pack_fuel_irrelevant.**  An answer that is not `diverged` is final: more fuel gives the
+same state and the same result (no hypothesis on the filesystem).  Hence from `pkTermBound fs` on
+the answer of the walk does not depend on the fuel at all: the fuel is an artefact of the model. -/
+theorem C19_pack_fuel_irrelevant (fs : FS) (cwd : Str) (o : PackOpts) (rules : Option (List Rule))
+    (root src dst path : Str) (node : Node) (st : PState) :
+    (∀ f g, f ≤ g → (walkNode fs cwd o rules root src dst f path node st).2 ≠ .stop .diverged →
+      walkNode fs cwd o rules root src dst g path node st = walkNode fs cwd o rules root src dst f path node st) ∧
+    (PackNamesOK fs → isAbs path = true → ∀ g, pkTermBound fs ≤ g →
+      walkNode fs cwd o rules root src dst g path node st =
+        walkNode fs cwd o rules root src dst (pkTermBound fs) path node st) :=
+  ⟨fun f g hfg h => pk_walkNode_fuel_mono fs cwd o rules root src dst f g hfg path node st h,
+   fun hfs habs g hg => pk_walkNode_fuel_irrelevant fs hfs cwd o rules root src dst g hg path node st habs⟩
+
+/-- **C19_pack_never_diverges.**  `Pack` itself, run from an absolute working directory (as
+`os.Getwd` guarantees): it does not report `diverged` when the fuel the model gives the walk
+(`packFuel`) covers the bound of the filesystem. -/
+theorem C19_pack_never_diverges (fs : FS) (hfs : PackNamesOK fs) (cwd : Str) (o : PackOpts) (src : Str)
+    (hcwd : isAbs cwd = true) (hsmall : pkTermBound fs ≤ packFuel) :
+    (pack fs cwd o src).2 ≠ .diverged :=
+  pk_pack_terminates fs hfs cwd o src hcwd hsmall
+
+/-- **C19_visiting_grows.**  What the bound rests on.  `pkFree fs v` counts the locations (the
+root and the bound paths of `fs`) that are not on the list `v`; it is at most `n + 1`.  The
+physical location of whatever `Lstat`/`Stat` finds is such a location, and pushing one that is not
+on the list leaves strictly fewer free ones — `packWalkFn` enters a nested walk only after that
+test, so dereferenced directories nest at most `n + 1` deep. -/
+theorem C19_visiting_grows (fs : FS) (v : List PPath) :
+    pkFree fs v ≤ fs.length + 1 ∧
+    (∀ q n, fs.lookup q = some n → q ∈ pkLocs fs) ∧
+    (∀ q, q ∈ pkLocs fs → v.contains q = false → pkFree fs (q :: v) < pkFree fs v) :=
+  ⟨pkFree_le fs v, fun _ _ h => pk_lookup_loc h, fun q hq hv => pkFree_push fs v q hq hv⟩
+
+/-! ## closed examples: symlink cycles through dereferenced directories -/
+
+/-- `/t/src/l -> /t/ext`, `/t/ext/self -> /t/ext` -/
 def c19fs : FS := [
   (["t".toList], .dir 0o755 0),
   (["t".toList, "src".toList], .dir 0o755 0),
   (["t".toList, "src".toList, "l".toList], .link "/t/ext".toList),
   (["t".toList, "ext".toList], .dir 0o755 0),
   (["t".toList, "ext".toList, "self".toList], .link "/t/ext".toList)]
-def c19o : PackOpts := ⟨true, false, []⟩
+def c19o : PackOpts := ⟨true, false, [], []⟩
 def c19root : Str := "/t/src".toList
 def c19ext : Str := "/t/ext".toList
-def c19self : Str := "/t/ext/self".toList
 def c19dir : Node := .dir 0o755 0
 def c19cwd : Str := "/".toList
-
-private theorem c19_f1 : pathRel c19ext c19ext = some dot := by decide
-private theorem c19_f2 : c19fs.resolvePath c19ext true = .ok ["t".toList, "ext".toList] := by decide
-private theorem c19_f3 : c19fs.readdir ["t".toList, "ext".toList] = ["self".toList] := by decide
-private theorem c19_f4 : pathJoin c19ext "self".toList = c19self := by decide
-private theorem c19_f5 : c19fs.lstat c19self = .ok (.link c19ext) := by decide
-private theorem c19_f6 : pathRel c19ext c19self = some "self".toList := by decide
-private theorem c19_f8 : validSymlink c19cwd [] c19root c19self c19ext = false := by decide
-private theorem c19_f10 : c19fs.lstat c19ext = .ok c19dir := by decide
-private theorem c19_f9 (j : Nat) : resolveExternalLink c19fs (j + 1) c19self = .ok (c19ext, c19dir) := by
-  rw [resolveExternalLink]
-  simp [FS.readlink, c19_f5, c19_f10, show isAbs c19ext = true by decide, c19dir]
-private theorem c19_f9h : resolveExternalLink c19fs maxLinkHops c19self = .ok (c19ext, c19dir) := c19_f9 254
-
-private theorem c19_f7 : pathRel c19root (replaceFirst c19self c19ext c19self) = some "../ext/self/self".toList := by decide
-
-/-- the callback on `/t/ext/self` inside a nested walk over `/t/ext`, given that the nested walk
-one level further down diverges -/
-private theorem c19_visit_self (dst sub : Str) (hsub : pathRel c19root (replaceFirst c19self c19ext dst) = some sub)
-    (hne : sub ≠ dot) (st : PState) (f : Nat)
-    (ih : ∀ g, g < f →
-      walkNode c19fs c19cwd c19o none c19root c19ext c19self g c19ext c19dir st = (st, .stop .diverged)) :
-    visit c19fs c19cwd c19o none c19root c19ext dst f c19self (.link c19ext) st = (st, .stop .diverged) := by
-  cases f with
-  | zero => rw [visit]
-  | succ f =>
-    rw [visit]
-    · simp only [c19_f6, hsub]
-      simp only [show ("self".toList = dot) = False from by decide, if_false, ruleExcludes,
-        Bool.false_eq_true, hne, c19_f8, show c19o.allow = [] from rfl, show c19o.dereference = true from rfl,
-        Bool.not_true]
-      simp only [c19_f9h, c19dir, c19_f10]
-      have := ih f (by omega)
-      unfold c19dir at this
-      simp [this]
-    · intro _ _ h; cases h
-
-private theorem c19_cycle : ∀ (n fuel : Nat), fuel ≤ n → ∀ (dst sub : Str),
-    pathRel c19root (replaceFirst c19self c19ext dst) = some sub → sub ≠ dot → ∀ st : PState,
-    walkNode c19fs c19cwd c19o none c19root c19ext dst fuel c19ext c19dir st = (st, .stop .diverged) := by
-  intro n
-  induction n with
-  | zero =>
-    intro fuel h dst sub _ _ st
-    have : fuel = 0 := by omega
-    subst this
-    rw [walkNode]
-  | succ n ih =>
-    intro fuel hle dst sub hsub hne st
-    unfold c19dir
-    cases fuel with
-    | zero => rw [walkNode]
-    | succ f1 =>
-      rw [walkNode]
-      cases f1 with
-      | zero => simp [visit]
-      | succ f2 =>
-        have hv : visit c19fs c19cwd c19o none c19root c19ext dst (f2 + 1) c19ext (.dir 0o755 0) st = (st, .cont) := by
-          rw [visit]; simp [c19_f1]
-        simp only [hv, c19_f2, c19_f3]
-        rw [walkChildren]
-        simp only [c19_f4, c19_f5]
-        cases f2 with
-        | zero => simp [walkNode]
-        | succ f3 =>
-          have hs := c19_visit_self dst sub hsub hne st f3 (fun g hg =>
-            ih g (by omega) c19self _ c19_f7 (by decide) st)
-          rw [walkNode]
-          · simp [hs]
-          · intro _ _ h; cases h
 def c19l : Str := "/t/src/l".toList
 
-private theorem c19_g1 : pathRel c19root c19root = some dot := by decide
-private theorem c19_g2 : c19fs.resolvePath c19root true = .ok ["t".toList, "src".toList] := by decide
-private theorem c19_g3 : c19fs.readdir ["t".toList, "src".toList] = ["l".toList] := by decide
-private theorem c19_g4 : pathJoin c19root "l".toList = c19l := by decide
-private theorem c19_g5 : c19fs.lstat c19l = .ok (.link c19ext) := by decide
-private theorem c19_g6 : pathRel c19root c19l = some "l".toList := by decide
-private theorem c19_g7 : pathRel c19root (replaceFirst c19l c19root c19root) = some "l".toList := by decide
-private theorem c19_g8 : validSymlink c19cwd [] c19root c19l c19ext = false := by decide
-private theorem c19_g9 (j : Nat) : resolveExternalLink c19fs (j + 1) c19l = .ok (c19ext, c19dir) := by
-  rw [resolveExternalLink]
-  simp [FS.readlink, c19_g5, c19_f10, show isAbs c19ext = true by decide, c19dir]
-private theorem c19_g9h : resolveExternalLink c19fs maxLinkHops c19l = .ok (c19ext, c19dir) := c19_g9 254
-private theorem c19_g10 : pathRel c19root (replaceFirst c19self c19ext c19l) = some "l/self".toList := by decide
+/-- **C19_pack_deref_cycle_is_error** (finding F26, repaired; replaces
+`C19_cex_pack_deref_cycle_pack`, which stated that this call diverges).  `/t/src/l` points out of
+the tree to `/t/ext`, which holds a link to itself.  With dereferencing on, `packWalkFn` starts a
+nested `filepath.Walk` over `/t/ext` for `l`; there `self` is again an out-of-tree link to a
+directory, but that directory is the one being archived: the "symlink cycle" error.  Nothing had
+been written (the root of a nested walk gets no entry of its own). -/
+theorem C19_pack_deref_cycle_is_error : pack c19fs c19cwd c19o c19root = (pkEmpty, .ioerr) := by
+  decide +kernel
 
-private theorem c19_visit_l (st : PState) (f : Nat) :
-    visit c19fs c19cwd c19o none c19root c19root c19root f c19l (.link c19ext) st = (st, .stop .diverged) := by
-  cases f with
-  | zero => rw [visit]
-  | succ f =>
-    rw [visit]
-    · simp only [c19_g6, c19_g7]
-      simp only [show ("l".toList = dot) = False from by decide, if_false, ruleExcludes,
-        Bool.false_eq_true, c19_g8, show c19o.allow = [] from rfl, show c19o.dereference = true from rfl,
-        Bool.not_true]
-      simp only [c19_g9h, c19dir, c19_f10]
-      have := c19_cycle f f (Nat.le_refl _) c19l _ c19_g10 (by decide) st
-      unfold c19dir at this
-      simp [this]
-    · intro _ _ h; cases h
+/-- the top-level walk of that call, for every amount of fuel from 8 on (with 7 it runs out:
+the chain of calls down to the test is that long); replaces `C19_cex_pack_deref_cycle` -/
+theorem C19_walk_deref_cycle_is_error (fuel : Nat) (h : 8 ≤ fuel) :
+    walkNode c19fs c19cwd c19o none c19root c19root c19root fuel c19root c19dir pkEmpty =
+      (pkEmpty, .stop .ioerr) := by
+  have h8 : walkNode c19fs c19cwd c19o none c19root c19root c19root 8 c19root c19dir pkEmpty =
+      (pkEmpty, .stop .ioerr) := by decide +kernel
+  rw [pk_walkNode_fuel_mono c19fs c19cwd c19o none c19root c19root c19root 8 fuel h c19root c19dir pkEmpty
+    (by rw [h8]; intro c; cases c), h8]
 
-private theorem c19_top (fuel : Nat) (st : PState) :
-    walkNode c19fs c19cwd c19o none c19root c19root c19root fuel c19root c19dir st = (st, .stop .diverged) := by
-  unfold c19dir
-  cases fuel with
-  | zero => rw [walkNode]
-  | succ f1 =>
-    rw [walkNode]
-    cases f1 with
-    | zero => simp [visit]
-    | succ f2 =>
-      have hv : visit c19fs c19cwd c19o none c19root c19root c19root (f2 + 1) c19root (.dir 0o755 0) st = (st, .cont) := by
-        rw [visit]; simp [c19_g1]
-      simp only [hv, c19_g2, c19_g3]
-      rw [walkChildren]
-      simp only [c19_g4, c19_g5]
-      cases f2 with
-      | zero => simp [walkNode]
-      | succ f3 =>
-        rw [walkNode]
-        · simp [c19_visit_l]
-        · intro _ _ h; cases h
-private theorem c19_pack : pack c19fs c19cwd c19o c19root = (pkEmpty, .diverged) := by
-  have h1 : pkRootInfo c19fs c19cwd c19root = .ok c19dir := by decide
-  have h2 : pkRoot c19fs c19cwd c19root = c19root := by decide
-  have h3 : pkRules c19fs c19cwd c19o c19root = none := by simp [pkRules, c19o]
-  have h4 : c19fs.lstat c19root = .ok c19dir := by decide
-  rw [pk_pack_eq, h1]
-  simp only [h2, h3, h4, c19_top, pkFinish]
+example : walkNode c19fs c19cwd c19o none c19root c19root c19root 7 c19root c19dir pkEmpty =
+    (pkEmpty, .stop .diverged) := by decide +kernel
 
+/-- the cycle itself (replaces `C19_cex_nested_walk_cycle`): the nested walk over `/t/ext` that
+`packWalkFn` starts for `/t/src/l` — source `/t/ext`, destination `/t/src/l`, the physical
+location of `/t/ext` on the `visiting` list — stops at `self` with the error -/
+theorem C19_nested_walk_cycle_is_error (fuel : Nat) (h : 4 ≤ fuel) :
+    walkNode c19fs c19cwd { c19o with visiting := [["t".toList, "ext".toList]] } none c19root c19ext c19l
+      fuel c19ext c19dir pkEmpty = (pkEmpty, .stop .ioerr) := by
+  have h4 : walkNode c19fs c19cwd { c19o with visiting := [["t".toList, "ext".toList]] } none c19root c19ext c19l
+      4 c19ext c19dir pkEmpty = (pkEmpty, .stop .ioerr) := by decide
+  rw [pk_walkNode_fuel_mono c19fs c19cwd _ none c19root c19ext c19l 4 fuel h c19ext c19dir pkEmpty
+    (by rw [h4]; intro c; cases c), h4]
 
-/-- **C19_cex_pack_deref_cycle** (finding F26).  `/t/src/l` points out of the tree to `/t/ext`,
-which holds a link to itself.  With dereferencing on, `packWalkFn` starts a nested
-`filepath.Walk` over `/t/ext` for `l`, in which `self` is again an out-of-tree link to a directory
-and starts the next nested walk, and so on: for *every* amount of fuel, from every state, the
-top-level walk ends by running out of fuel, with the state untouched (nothing is ever written). -/
-theorem C19_cex_pack_deref_cycle (fuel : Nat) (st : PState) :
-    walkNode c19fs c19cwd c19o none c19root c19root c19root fuel c19root c19dir st = (st, .stop .diverged) :=
-  c19_top fuel st
-
-/-- the cycle itself: the nested walk over `/t/ext` (source `/t/ext`, any destination that is not
-the root) diverges for every fuel -/
-theorem C19_cex_nested_walk_cycle (fuel : Nat) (dst sub : Str)
-    (h : pathRel c19root (replaceFirst c19self c19ext dst) = some sub) (hne : sub ≠ dot) (st : PState) :
-    walkNode c19fs c19cwd c19o none c19root c19ext dst fuel c19ext c19dir st = (st, .stop .diverged) :=
-  c19_cycle fuel fuel (Nat.le_refl _) dst sub h hne st
-
-/-- `Pack` on that tree, with the fuel the model gives it -/
-theorem C19_cex_pack_deref_cycle_pack : pack c19fs c19cwd c19o c19root = (pkEmpty, .diverged) :=
-  c19_pack
+/-- the general theorems apply to this tree, and `packFuel` covers its bound -/
+example : PackNamesOK c19fs ∧ pkTermBound c19fs = 315 ∧ pkTermBound c19fs ≤ packFuel := by
+  refine ⟨?_, by decide, by decide⟩
+  unfold PackNamesOK NameNS Plain; decide
 
 /-- the same tree without dereferencing is refused at once (illegal slug), and with the target
-allow-listed it is packed as a link: the divergence needs the dereference option -/
-example : pack c19fs c19cwd ⟨false, false, []⟩ c19root = (pkEmpty, .illegal) := by decide
-example : (pack c19fs c19cwd ⟨false, false, [c19ext]⟩ c19root).2 = .ok := by decide
+allow-listed it is packed as a link: the nested walks need the dereference option -/
+example : pack c19fs c19cwd ⟨false, false, [], []⟩ c19root = (pkEmpty, .illegal) := by decide
+example : (pack c19fs c19cwd ⟨false, false, [c19ext], []⟩ c19root).2 = .ok := by decide
+
+/-- `/t/src/l -> /t/ext`, and `/t/ext/d/up -> ..` leads back to `/t/ext` from a subdirectory;
+`/t/ext/a` is a regular file -/
+def c19upfs : FS := [
+  (["t".toList], .dir 0o755 0),
+  (["t".toList, "src".toList], .dir 0o755 0),
+  (["t".toList, "src".toList, "l".toList], .link "/t/ext".toList),
+  (["t".toList, "ext".toList], .dir 0o755 0),
+  (["t".toList, "ext".toList, "a".toList], .file 0o644 0 "x".toList),
+  (["t".toList, "ext".toList, "d".toList], .dir 0o755 0),
+  (["t".toList, "ext".toList, "d".toList, "up".toList], .link "..".toList)]
+
+/-- **C19_pack_deref_ancestor_cycle_is_error.**  The cycle runs through an ancestor: inside the
+nested walk over `/t/ext` (archived as `l`), `d/up -> ..` leaves the source root lexically
+(`l/d/..` is `l`, but `validSymlink` compares with `/t/src`) and resolves to `/t/ext` again, the
+directory being archived two levels up: the "symlink cycle" error, after `l/a` and `l/d/` were
+written. -/
+theorem C19_pack_deref_ancestor_cycle_is_error :
+    pack c19upfs c19cwd c19o c19root =
+      ({ entries := [{ name := "l/a".toList, typ := tReg, mode := 0o644, mtime := 0, link := [], body := "x".toList },
+                     { name := "l/d/".toList, typ := tDir, mode := 0o755, mtime := 0, link := [], body := [] }],
+         pmeta := { files := ["l/a".toList, "l/d/".toList], size := 1 } }, .ioerr) := by
+  decide +kernel
+
+/-- `/t/src/l1` and `/t/src/l2` both point to the outside directory `/t/ext` (no cycle) -/
+def c19twofs : FS := [
+  (["t".toList], .dir 0o755 0),
+  (["t".toList, "src".toList], .dir 0o755 0),
+  (["t".toList, "src".toList, "l1".toList], .link "/t/ext".toList),
+  (["t".toList, "src".toList, "l2".toList], .link "/t/ext".toList),
+  (["t".toList, "ext".toList], .dir 0o755 0),
+  (["t".toList, "ext".toList, "a".toList], .file 0o644 0 "x".toList)]
+
+/-- **C19_pack_deref_twice_is_ok.**  Two links to the same outside directory side by side are
+both archived, without error: the `visiting` list holds the directories being archived *now*
+(a stack), it is not a set of directories seen so far — the walk of `l2` starts from the list the
+walk of `l1` started from. -/
+theorem C19_pack_deref_twice_is_ok :
+    pack c19twofs c19cwd c19o c19root =
+      ({ entries := [{ name := "l1/a".toList, typ := tReg, mode := 0o644, mtime := 0, link := [], body := "x".toList },
+                     { name := "l2/a".toList, typ := tReg, mode := 0o644, mtime := 0, link := [], body := "x".toList }],
+         pmeta := { files := ["l1/a".toList, "l2/a".toList], size := 2 } }, .ok) := by
+  decide +kernel
+
+/-! ## the hypothesis on names is needed -/
+
+/-- a value of the model type `FS` that no real filesystem has: a directory entry named `..` -/
+def c19badfs : FS := [
+  (["t".toList], .dir 0o755 0),
+  (["t".toList, "..".toList], .dir 0o755 0)]
+
+/-- **C19_cex_terminates_needs_names.**  Without `PackNamesOK` the conclusion of
+`C19_pack_terminates` fails: `filepath.Join("/t", "..")` is `/`, whose entry `t` leads back to
+`/t`, and the plain walk (no dereferencing) from `/t` with fuel `pkTermBound` runs out of fuel —
+as does `Pack` with the fuel the model gives it. -/
+theorem C19_cex_terminates_needs_names :
+    ¬ PackNamesOK c19badfs ∧
+    (walkNode c19badfs c19cwd ⟨false, false, [], []⟩ none "/t".toList "/t".toList "/t".toList
+      (pkTermBound c19badfs) "/t".toList c19dir pkEmpty).2 = .stop .diverged ∧
+    (pack c19badfs c19cwd ⟨false, false, [], []⟩ "/t".toList).2 = .diverged := by
+  refine ⟨?_, by decide +kernel, by decide +kernel⟩
+  intro h
+  have := (h (["t".toList, "..".toList], .dir 0o755 0) (by simp [c19badfs]) "..".toList (by simp)).1.2.2
+  exact this rfl
 
 /-! ## a cyclic chain for `resolveExternalLink` -/
 
